@@ -244,6 +244,8 @@ fn nested_types() -> Vec<DataType> {
             fld("z", Timestamp(TimeUnit::Nanosecond, utc.clone()), true),
         ]),
         struct_of(vec![fld("a", Int32, false)]),
+        struct_of(vec![fld("z", FixedSizeList(item(Int32), 0), true), fld("i", Int32, true)]),
+        struct_of(vec![fld("w", FixedSizeBinary(0), true)]),
         struct_of(vec![fld("d", dict_of(Int8, Utf8), true), fld("m", map_of(Utf8, Int32, false), true)]),
         map_of(Utf8, Int32, false),
         map_of(Int32, List(item(Utf8)), false),
@@ -297,9 +299,10 @@ fn gen_leaf_type(rng: &mut Rng) -> DataType {
             let p = rng.range(1, 76) as u8;
             Decimal256(p, rng.range(-20, p as i64) as i8)
         }
-        4 => FixedSizeBinary(rng.range(0, 20) as i32),
+        // zero-width binary is covered by the systematic part only (same reason as zero-width lists below)
+        4 => FixedSizeBinary(rng.range(1, 20) as i32),
         _ => {
-            let all = leaf_types();
+            let all: Vec<DataType> = leaf_types().into_iter().filter(|t| *t != FixedSizeBinary(0)).collect();
             rng.pick_cloned(&all)
         }
     }
@@ -325,8 +328,10 @@ fn gen_type(rng: &mut Rng, depth: u32) -> DataType {
             LargeList(list_field(rng, c))
         }
         2 => {
+            // zero-width lists are covered by the systematic part only (arrow's `take` mishandles them,
+            // which would otherwise re-surface under many derived signatures in the random tail)
             let c = child(rng);
-            FixedSizeList(list_field(rng, c), rng.range(0, 3) as i32)
+            FixedSizeList(list_field(rng, c), rng.range(1, 3) as i32)
         }
         3 => {
             let c = child(rng);
@@ -716,9 +721,21 @@ struct Cx<'a> {
     examples: Mutex<BTreeMap<String, Json>>,
 }
 
+thread_local! {
+    /// law whose observation was corrupted by the self-test in the case currently executing on this thread
+    static CORRUPTED: std::cell::Cell<usize> = const { std::cell::Cell::new(0) };
+}
+
+const LAW_NAMES: [&str; 7] = ["", "rt", "iter", "hash", "ord", "sort", "cast"];
+
 impl Cx<'_> {
     fn corrupt_now(&self, law: usize) -> bool {
-        self.selftest & (1 << law) != 0 && self.st_ctr[law].fetch_add(1, AO::Relaxed) % 5 == 4
+        let hit = self.selftest & (1 << law) != 0 && self.st_ctr[law].fetch_add(1, AO::Relaxed) % 5 == 4;
+        if hit {
+            CORRUPTED.with(|c| c.set(law));
+            self.rep.count(&format!("selftest_corrupted/{}", LAW_NAMES[law]), 1);
+        }
+        hit
     }
 
     fn panic(&self, law: &str, what: &str, msg: &str, input: &dyn Fn() -> Json) {
@@ -729,6 +746,20 @@ impl Cx<'_> {
         let class = format!("{law}/{what}: {text} @ {loc}");
         self.rep.seen("panic_classes", &class);
         self.example(&class, &|| json!({"panic": msg, "input": input()}));
+    }
+
+    /// A panic of a `ScalarValue` API itself on a valid input: recorded and reported as a violation.
+    fn crash(&self, api: &str, what: &str, msg: &str, input: &dyn Fn() -> Json) {
+        self.panic(api, what, msg, input);
+        let sig_api = api.rsplit(':').next().unwrap_or(api);
+        let sig_api = match sig_api {
+            "to_array_of_size" | "try_from_array" => "rt",
+            "iter_to_array" => "iter",
+            "compare_rows" => "ord",
+            other => other,
+        };
+        self.violation(&format!("panic/{sig_api}/{what}"), json!({"law": "no-panic", "api": api, "panic": msg, "input": input(),
+            "expected": "no panic: the input is a valid scalar / valid scalars of one data type"}));
     }
 
     fn skip(&self, what: &str, err: &str, input: &dyn Fn() -> Json) {
@@ -745,6 +776,10 @@ impl Cx<'_> {
     }
 
     fn violation(&self, sig: &str, witness: Json) {
+        let law = CORRUPTED.with(|c| c.get());
+        if law != 0 {
+            self.rep.count(&format!("selftest_detected/{}", LAW_NAMES[law]), 1);
+        }
         self.rep.count(&format!("violation/{sig}"), 1);
         self.rep.violation(sig, witness);
     }
@@ -798,14 +833,19 @@ fn dbg(s: &ScalarValue) -> String {
         _ => None,
     };
     let t = match raw {
-        Some(r) => format!("{s:?} [raw {r}]"),
-        None => format!("{s:?}"),
+        Some(r) => format!("{} [raw {r}]", debug_text(s)),
+        None => debug_text(s),
     };
     if t.len() > 600 { format!("{}…", t.chars().take(600).collect::<String>()) } else { t }
 }
 
+/// `{:?}` of a scalar; formatting nested arrays can itself panic inside arrow (zero-width types)
+fn debug_text(s: &ScalarValue) -> String {
+    guard(|| format!("{s:?}")).unwrap_or_else(|p| format!("<Debug panicked: {}> of {}", p.chars().take(120).collect::<String>(), s.data_type()))
+}
+
 fn sfp(law: usize, s: &ScalarValue) -> u64 {
-    fp_mix(law as u64, fp_str(&format!("{s:?}/{}", s.data_type())))
+    fp_mix(law as u64, fp_str(&format!("{}/{}", debug_text(s), s.data_type())))
 }
 
 /// A value that differs from `s` (self-test corruption of an observed scalar).
@@ -838,7 +878,7 @@ fn law_roundtrip(cx: &Cx, s: &ScalarValue, origin: &str) {
                 continue;
             }
             Out::Panic(p) => {
-                cx.panic("rt:to_array_of_size", var, &p, &|| inp(n));
+                cx.crash("rt:to_array_of_size", var, &p, &|| inp(n));
                 continue;
             }
         };
@@ -861,7 +901,7 @@ fn law_roundtrip(cx: &Cx, s: &ScalarValue, origin: &str) {
                     break;
                 }
                 Out::Panic(p) => {
-                    cx.panic("rt:try_from_array", var, &p, &|| inp(n));
+                    cx.crash("rt:try_from_array", var, &p, &|| inp(n));
                     break;
                 }
             };
@@ -883,7 +923,7 @@ fn law_roundtrip(cx: &Cx, s: &ScalarValue, origin: &str) {
                     break;
                 }
                 Err(p) => {
-                    cx.panic("rt:eq", var, &p, &|| inp(n));
+                    cx.crash("rt:eq", var, &p, &|| inp(n));
                     break;
                 }
             }
@@ -920,7 +960,7 @@ fn law_iter(cx: &Cx, scalars: &[ScalarValue]) {
             return;
         }
         Out::Panic(p) => {
-            cx.panic("iter:iter_to_array", var, &p, &inp);
+            cx.crash("iter:iter_to_array", var, &p, &inp);
             return;
         }
     };
@@ -941,7 +981,7 @@ fn law_iter(cx: &Cx, scalars: &[ScalarValue]) {
                 return;
             }
             Out::Panic(p) => {
-                cx.panic("iter:try_from_array", var, &p, &inp);
+                cx.crash("iter:try_from_array", var, &p, &inp);
                 return;
             }
         };
@@ -956,7 +996,7 @@ fn law_iter(cx: &Cx, scalars: &[ScalarValue]) {
                 return;
             }
             Err(p) => {
-                cx.panic("iter:eq", var, &p, &inp);
+                cx.crash("iter:eq", var, &p, &inp);
                 return;
             }
         }
@@ -978,7 +1018,7 @@ fn check_hash_pair(cx: &Cx, a: &ScalarValue, b: &ScalarValue, how: &str) {
             return;
         }
         Err(p) => {
-            cx.panic("hash:eq", var, &p, &inp);
+            cx.crash("hash:eq", var, &p, &inp);
             return;
         }
     }
@@ -1322,7 +1362,7 @@ fn law_order(cx: &Cx, vals: &[ScalarValue]) {
     match guard(|| check_order(cx, vals)) {
         Ok(true) => cx.rep.count(&format!("ord_ok/{}", type_class(&vals[0].data_type())), 1),
         Ok(false) => {}
-        Err(p) => cx.panic("ord", variant(&vals[0]), &p, &|| json!({"values": vals.iter().map(dbg).collect::<Vec<_>>()})),
+        Err(p) => cx.crash("ord", variant(&vals[0]), &p, &|| json!({"values": vals.iter().map(dbg).collect::<Vec<_>>()})),
     }
 }
 
@@ -1340,7 +1380,7 @@ fn law_sort(cx: &Cx, vals: &[ScalarValue]) {
         Out::Ok(a) if a.len() == vals.len() && a.data_type() == &dt => a,
         Out::Ok(_) => return rep.skip("sort: iter_to_array gave another shape (see law iter)"),
         Out::Err(e) => return cx.skip(&format!("sort:iter_to_array/{var}"), &e, &inp),
-        Out::Panic(p) => return cx.panic("sort:iter_to_array", var, &p, &inp),
+        Out::Panic(p) => return cx.crash("sort:iter_to_array", var, &p, &inp),
     };
     let witness = |what: &str, idx: &[usize], observed: Json| {
         json!({"law": "sort", "reference": what, "data_type": dt.to_string(), "values": idx.iter().map(|i| dbg(&vals[*i])).collect::<Vec<_>>(),
@@ -1415,7 +1455,7 @@ fn law_sort(cx: &Cx, vals: &[ScalarValue]) {
                     }
                 }
                 Ok(Err(e)) => cx.skip(&format!("compare_rows/{var}"), &e.to_string(), &inp),
-                Err(p) => cx.panic("sort:compare_rows", var, &p, &inp),
+                Err(p) => cx.crash("sort:compare_rows", var, &p, &inp),
             }
         }
     }
@@ -1567,7 +1607,7 @@ fn systematic_values(dt: &DataType, type_idx: usize, cap: usize) -> Vec<ScalarVa
         let mut rng = Rng::derive(0xC34C34, &[type_idx as u64, k]);
         if let Ok(v) = gen_value(dt, &mut rng, 0) {
             // (not `==`: comparing nested scalars is itself under test and may panic)
-            let t = format!("{v:?}");
+            let t = debug_text(&v);
             if !texts.contains(&t) {
                 texts.push(t);
                 out.push(v);
@@ -1662,6 +1702,7 @@ fn stage_code(stage: &str) -> u64 {
 }
 
 fn exec(cx: &Cx, args: &Args, case: Case) {
+    CORRUPTED.with(|c| c.set(0));
     let st = stage_code(&args.stage);
     let rng_for = |phase: u64, i: u64| Rng::derive(args.seed, &[34, st, phase, i]);
     let gen_fail = |e: String| cx.rep.skip(&format!("generator: {}", err_class(&e)));
@@ -1882,12 +1923,13 @@ fn run_check(args: &Args) -> i32 {
                 }
             }
             Out::Err(e) => cx.skip("try_new_null", &e, &|| json!({"data_type": dt.to_string()})),
-            Out::Panic(p) => cx.panic("try_new_null", &type_class(&dt), &p, &|| json!({"data_type": dt.to_string()})),
+            Out::Panic(p) => cx.crash("try_new_null", &type_class(&dt), &p, &|| json!({"data_type": dt.to_string()})),
         }
     }
 
     // 1. systematic part
-    let sys = systematic_cases(div, &cx.cast_targets);
+    // `--opt nosys=1` (debugging aid): run the random tail only
+    let sys = if args.opt_u64("nosys", 0) == 1 { vec![] } else { systematic_cases(div, &cx.cast_targets) };
     rep.extra("systematic_cases", json!(sys.len()));
     vcommon::par::run(args.workers, sys.into_iter(), |c| exec(&cx, args, c));
 
@@ -1939,6 +1981,15 @@ fn run_check(args: &Args) -> i32 {
     let equal_pairs: u64 = ["clone", "roundtrip", "sliced", "child-offset", "null-garbage", "cast-back", "ord-pair"].iter().map(|h| rep.get_count(&format!("hash_equal_pairs/{h}"))).sum();
     rep.obligation("hash-equal-pairs", equal_pairs > 0 && rep.get_count("hash_equal_pairs/sliced") > 0, &format!("{equal_pairs} equal pairs hashed"));
     rep.obligation("sort-references", rep.get_count("sort_kernel_checked") > 0 && rep.get_count("sort_comparator_checked") > 0, "sort kernel and comparator both exercised");
+    if cx.selftest != 0 {
+        // the oracle of every corrupted law must have noticed
+        for law in [L_RT, L_ITER, L_HASH, L_ORD, L_SORT, L_CAST] {
+            if cx.selftest & (1 << law) != 0 && rep.get_count(&format!("selftest_detected/{}", LAW_NAMES[law])) == 0 {
+                println!("SELFTEST-MISSED property=C34 law={}", LAW_NAMES[law]);
+                rep.obligation(&format!("selftest-{}", LAW_NAMES[law]), false, "corrupted observations of this law raised no violation");
+            }
+        }
+    }
     rep.finish()
 }
 
